@@ -95,6 +95,7 @@ func VP_C15_crash() {
 			vp.Assert(!r2.ExistSector(co[0], co[1]), "absent chunk still absent after crash")
 		}
 	}
+	vpOnlyKnownEntries(image, chunks, x, z)
 	vp.Cover("end")
 }
 
@@ -153,10 +154,12 @@ func VP_C15_crash_shrink() {
 	err = r.WriteSector(chunks[ti].x, chunks[ti].z, data)
 	vp.FreezeClock(false)
 	vp.Assert(err == nil, "WriteSector")
-	r2, err := Load(&vpMemFile{b: vpCrashImage(before, mem.log)})
+	image := vpCrashImage(before, mem.log)
+	r2, err := Load(&vpMemFile{b: append([]byte{}, image...)})
 	vp.Assert(err == nil, "re-opening after the crash succeeds")
 	vpExpectChunk(r2, chunks[1-ti], "other chunk after crash")
 	vp.Assert(!r2.ExistSector(vpCoords[2][0], vpCoords[2][1]), "absent chunk still absent after crash")
+	vpOnlyKnownEntries(image, chunks[:], chunks[ti].x, chunks[ti].z)
 	vp.Cover("end")
 }
 
@@ -195,7 +198,8 @@ func VP_C15_crash_after_write() {
 	err = r.WriteSector(vpCoords[ti][0], vpCoords[ti][1], data)
 	vp.FreezeClock(false)
 	vp.Assert(err == nil, "WriteSector")
-	r2, err := Load(&vpMemFile{b: vpCrashImage(before, mem.log)})
+	image := vpCrashImage(before, mem.log)
+	r2, err := Load(&vpMemFile{b: append([]byte{}, image...)})
 	vp.Assert(err == nil, "re-opening after the crash succeeds")
 	for i, ch := range model {
 		if i != ti {
@@ -205,5 +209,6 @@ func VP_C15_crash_after_write() {
 	if ti != 2 {
 		vp.Assert(!r2.ExistSector(vpCoords[2][0], vpCoords[2][1]), "absent chunk still absent after crash")
 	}
+	vpOnlyKnownEntries(image, model, vpCoords[ti][0], vpCoords[ti][1])
 	vp.Cover("end")
 }
